@@ -143,8 +143,19 @@ pub fn run(tape: &mut Tape, props: Props, p: &Params, trace_on: bool) -> Outcome
         rxb[i] = pick_buf(tape, p.thorough);
         txb[i] = pick_buf(tape, p.thorough);
     }
-    let cc: Vec<u64> = (0..2).map(|_| tape.draw(3)).collect();
-    let nagle: Vec<bool> = (0..2).map(|_| tape.draw(2) == 0).collect();
+    let mut cc: Vec<u64> = (0..2).map(|_| tape.draw(3)).collect();
+    let mut nagle: Vec<bool> = (0..2).map(|_| tape.draw(2) == 0).collect();
+    // focus profile "first flight": the connecting node writes a stream sized around the first window it is offered
+    // (65535 octets: the unscaled window field of the SYN|ACK of a passive opener with a buffer above 64 KiB) and
+    // closes at once, without congestion control; the passive opener is stalled while the flight arrives and takes
+    // all of it, FIN included, in one go - before it has sent a single window update of its own
+    let first_flight = tape.draw(24) == 23;
+    if first_flight {
+        rxb[1] = *tape.pick(&[65536usize, 100_000, 131_072, 262_144]);
+        txb[0] = 262_144;
+        cc[0] = 0;
+        nagle[0] = false;
+    }
     let ack_delay: Vec<Option<i64>> = (0..2)
         .map(|_| match tape.draw(6) {
             0 => Some(10_000),
@@ -253,13 +264,30 @@ pub fn run(tape: &mut Tape, props: Props, p: &Params, trace_on: bool) -> Outcome
     // focus profile: a zero-window episode (node 1's application does not read for a while, node 0 has more
     // to send than node 1 can buffer) during which node 1's segments are duplicated in late bursts - stale
     // ACKs / window values arrive after the window has reopened - and node 0's segments are lossy
+    if first_flight {
+        to_send[0] = *tape.pick(&[65535u64, 65534, 65536, 65535, 65533, 65537]);
+        to_send[1] = tape.range(0, 200);
+        link = LinkCfg::clean(1_000);
+        link.rx_verify = Some([verifies(&cfgs[0]), verifies(&cfgs[1])]);
+        link.profile_name = "first-flight";
+    }
     let zero_window_focus = p.liveness && tape.draw(6) == 5;
     let mut initial_read_stall = 0i64;
     if zero_window_focus {
         initial_read_stall = *tape.pick(&[500_000i64, 1_500_000, 3_000_000, 8_000_000]);
         to_send[0] = to_send[0].max(3 * rxb[1] as u64 + 100).min(cap_stream.max(3 * rxb[1] as u64 + 100));
+        // (or exactly what the reader's buffer holds, give or take an octet: the window closes with everything,
+        // the FIN included, already in flight)
+        let exact_fill = tape.draw(3) == 0;
+        if exact_fill {
+            // (half of the time into a buffer above 64 KiB, whose advertised window is rounded down to the scale unit)
+            if tape.draw(2) == 0 {
+                rxb[1] = *tape.pick(&[65536usize, 131_072, 100_000]);
+            }
+            to_send[0] = (rxb[1] as u64 + tape.draw(3)).saturating_sub(1).max(1);
+        }
         link.dir[1].dup = 300 + tape.draw(400);
-        link.dir[1].drop = tape.draw(50);
+        link.dir[1].drop = if exact_fill { 50 + tape.draw(250) } else { tape.draw(50) };
         link.dir[1].big_delay = tape.draw(150);
         link.dir[0].drop = 100 + tape.draw(300);
         link.dir[0].dup = tape.draw(100);
@@ -326,7 +354,9 @@ pub fn run(tape: &mut Tape, props: Props, p: &Params, trace_on: bool) -> Outcome
             eof: false,
             err: false,
             read_stall_until: if i == 1 { initial_read_stall } else { 0 },
-            write_stall_until: 0,
+            // (first-flight profile: the passive opener says nothing - no data, no close, hence no window update -
+            // until well after the first flight has arrived)
+            write_stall_until: if first_flight && i == 1 { 2_000_000 } else { 0 },
             ever_established: false,
             aborted: false,
             abort_at_recvd: if abort_side == Some(i) { Some(to_send[1 - i] / 2) } else { None },
@@ -366,6 +396,9 @@ pub fn run(tape: &mut Tape, props: Props, p: &Params, trace_on: bool) -> Outcome
     let mut w = World::new(nodes, views, link, props, trace_on);
     w.schedule(0, Ev::App { node: 0 });
     w.schedule(0, Ev::App { node: 1 });
+    if first_flight {
+        w.schedule(2_000_000, Ev::App { node: 1 });
+    }
     let fe = w.link.fault_end;
     w.schedule(fe, Ev::FaultEnd);
 
@@ -389,6 +422,9 @@ pub fn run(tape: &mut Tape, props: Props, p: &Params, trace_on: bool) -> Outcome
         timeouts: [timeout[0].is_some(), timeout[1].is_some()],
         probes: [None, None],
         stall_total: initial_read_stall,
+        node_stall_until: [0; 2],
+        first_flight,
+        first_flight_stalled: false,
     };
     let mut res = main_loop(&mut w, &mut st, tape);
     // ---- second life: the same two socket objects carry a second connection after the first one ended or was
@@ -518,6 +554,11 @@ struct St {
     probes: [Option<ProbeArm>; 2],
     /// total duration of application read/write stalls drawn so far
     stall_total: i64,
+    /// a stalled node (fault kind of the sloppy discipline): until this instant the node does not run at all - frames
+    /// pile up in its device, deadlines pass - and then takes everything in at once
+    node_stall_until: [i64; 2],
+    first_flight: bool,
+    first_flight_stalled: bool,
 }
 
 fn sock<'a>(w: &'a World, st: &St, n: usize) -> &'a tcp::Socket<'static> {
@@ -593,7 +634,23 @@ fn main_loop(w: &mut World, st: &mut St, tape: &mut Tape) -> Result<(), Violatio
                     service(w, st, to, tape)?;
                 } else {
                     w.nodes[to].dev.rx.push_back(frame);
-                    if st.sloppy && tape.chance(1, 8) {
+                    if st.first_flight && to == 1 && !st.first_flight_stalled && pkt.as_ref().and_then(|p| p.tcp()).map(|(_, t)| t.has(F_SYN)).unwrap_or(false) {
+                        // the passive opener answers the SYN and is then stalled: the handshake's last ACK and the whole
+                        // first flight are waiting in its device when it runs again
+                        st.first_flight_stalled = true;
+                        service(w, st, 1, tape)?;
+                        let d = *tape.pick(&[300_000i64, 800_000, 150_000]);
+                        st.node_stall_until[1] = w.now + d;
+                        w.stats.inc("fault.node-stall");
+                        w.schedule(w.now + d, Ev::App { node: 1 });
+                    } else if w.now < st.node_stall_until[to] {
+                        // stalled: the frame waits in the device
+                    } else if st.sloppy && w.faults_active() && tape.chance(1, 40) {
+                        let d = *tape.pick(&[30_000i64, 120_000, 400_000, 1_500_000]);
+                        st.node_stall_until[to] = w.now + d;
+                        w.stats.inc("fault.node-stall");
+                        w.schedule(w.now + d, Ev::App { node: to });
+                    } else if st.sloppy && tape.chance(1, 8) {
                         // batch: leave the frame in the rx queue, poll a bit later
                         let d = tape.range(1, 20_000) as i64;
                         w.stats.inc("sched.batched-rx");
@@ -602,6 +659,10 @@ fn main_loop(w: &mut World, st: &mut St, tape: &mut Tape) -> Result<(), Violatio
                         service(w, st, to, tape)?;
                     }
                 }
+            }
+            Ev::Deadline { node, .. } | Ev::App { node } if w.now < st.node_stall_until[node] => {
+                // stalled node: the service scheduled for the end of the stall picks everything up
+                let _ = node;
             }
             Ev::Deadline { node, generation } => {
                 if generation == w.gens[node] {
@@ -1083,6 +1144,11 @@ fn app_step(w: &mut World, st: &mut St, n: usize, tape: &mut Tape) -> Result<boo
                     a.eof = true;
                     did = true;
                     w.stats.inc("app.finished");
+                    if (!peer_closed || a.recvd != peer_sent) && liveness && w.props.has("C02") && !w.props.has("C01") {
+                        // under the liveness property the same event reads: octets accepted by send will now never reach
+                        // the peer application
+                        return Err(viol("C02", "delivery", "C02.delivery/stream-ended-before-every-accepted-octet-was-delivered", format!("node {} was told Finished after {} bytes; the peer application wrote {} bytes (closed={}): the rest can never be delivered", w.nodes[n].name, a.recvd, peer_sent, peer_closed)));
+                    }
                     if !peer_closed || a.recvd != peer_sent {
                         return Err(viol(
                             "C01",
